@@ -11,6 +11,7 @@ DECIDED = ("R1 in Sim::step the two host loops iterate the two components of one
            "(Sim::elapsed field, Sim::since_epoch field) in that order; R4 the host's `now` instant is refreshed from its runtime "
            "before each Rt::tick; runtimes are paused (C01-R3).")
 NOT_DECIDED = ("millisecond-exact firing of tokio timers, the window of times observable inside a step, monotonicity as a numeric fact.")
+DECIDED += "; R6 exhaustive scan: Topology::tick_by ticks every link"
 ASSUMPTIONS = ["tokio start_paused + sleep(tick) advances the runtime clock by exactly tick"]
 
 STEP = "turmoil::sim::Sim::step"
